@@ -163,7 +163,10 @@ func Std(kind string, prefix int, data []byte, scratchDir string) (r io.Reader, 
 		return br, func() int { return -1 }, cleanup
 	case "os.File":
 		_ = os.MkdirAll(scratchDir, 0o755)
-		f, err := os.CreateTemp(scratchDir, "src-*")
+		// files have names, and a name may say anything about the content: an extension of another (or the same)
+		// image format, upper case, none at all
+		exts := []string{"", ".bin", ".png", ".jpg", ".jpeg", ".webp", ".JPG", ".PNG", ".icc", ".gif"}
+		f, err := os.CreateTemp(scratchDir, "src-*"+exts[(len(data)+prefix)%len(exts)])
 		if err == nil {
 			_, _ = f.Write(all)
 			_, _ = f.Seek(int64(prefix), io.SeekStart)
